@@ -19,9 +19,13 @@
       `dimension_unit_roundtrip`); the exclusions of `ident_token_roundtrip` are exactly the
       findings above.  `separator_table_complete`: the regenerated table contains every pair of the
       css-syntax-3 §9 table; `separator_table_still_missing`: the unrepaired pair is absent.
-  `roundtrip_partial` (whole lists): see the end of this file.
+  `roundtrip_partial` (whole lists, end of this file): for every list of identifiers, strings and
+  urls with arbitrary contents, separated by single white-space tokens, serialize → tokenize gives
+  the same tokens.  Its domain excludes, besides the token classes not yet handled (numbers,
+  hashes, at-keywords, literals, blocks, functions), exactly the unrepaired cases: they all need two
+  non-white-space tokens next to each other, or two white-space tokens next to each other.
 -/
-import WR.C20.TokenLevel
+import WR.C20.Partial
 namespace WR.Props.C20
 open WR.C06 WR.C20 WR.Gen.C20Pairs List
 
@@ -92,7 +96,8 @@ theorem ident_token_roundtrip (total : Nat) (s t r : Str) (hs : serializeIdentif
 
 example : stopsName [' ', 'x'] ∧ (∀ r', ([' ', 'x'] : Str) ≠ '(' :: r') ∧
     startsURange (['u', '\\', '+'] ++ [' ', 'x']) = false := by
-  refine ⟨⟨by decide, by decide⟩, fun r' h => by cases h, by decide⟩
+  refine ⟨⟨by decide, by decide⟩, ?_, by decide⟩
+  intro r' h; cases h
 
 /-- urls -/
 theorem url_token_roundtrip (total : Nat) (s r : Str) (h0 : ∀ c ∈ s, c ≠ '\x00') :
@@ -156,11 +161,34 @@ theorem regression_F20_6 : roundTrips badPairs ['-', '/', '*', '*', '/', '-', ' 
 theorem F20_7a_unicode_range : roundTrips badPairs ['u', '/', '*', '*', '/', '+', '/', '*', '*', '/', 'a'] = false := by decide
 /-- F20-7b (not repaired) `u/**/+/**/?` -/
 theorem F20_7b_unicode_range : roundTrips badPairs ['u', '/', '*', '*', '/', '+', '/', '*', '*', '/', '?'] = false := by decide
-/-- F20-7c (not repaired) `</**/!/**/--x`: written `<!--x`, CDO -/
+/-- F20-7c (not repaired) `<`, `!`, identifier `--x` (comments between them dropped): written `<!--x`, CDO -/
 theorem F20_7c_cdo : roundTrips badPairs ['<', '/', '*', '*', '/', '!', '/', '*', '*', '/', '-', '-', 'x'] = false := by decide
-/-- F20-9 (not repaired) `--/**/>`: written `-->`, CDC -/
+/-- F20-9 (not repaired) identifier `--`, then `>` (comment between them dropped): written as CDC -/
 theorem F20_9_cdc : roundTrips badPairs ['-', '-', '/', '*', '*', '/', '>'] = false := by decide
 /-- F20-8 (not repaired, harmless) ` /**/ `: two white space tokens are written as one -/
 theorem F20_8_whitespace : roundTrips badPairs [' ', '/', '*', '*', '/', ' '] = false := by decide
+
+
+/-! ## whole lists -/
+
+/-- P2 `roundtrip_partial`.  Full statement (false, see the header):
+`∀ ts, error-free → tokenize (serialize ts) ≈ ts`.  Proved: for EVERY list `ts` of identifiers,
+closed strings and closed urls (arbitrary values: escapes, control characters, quotes, newlines,
+non-ASCII; urls without NUL) separated by single white-space tokens, optionally starting and/or
+ending with one (`WsSeparated ts txt`, `txt` being the concatenation of the texts), the model of
+serialize.go with the table of the running code writes exactly `txt`, and `txt` tokenizes back to
+`ts`, positions aside (`strip` zeroes positions and drops comments). -/
+theorem roundtrip_partial (ts : List Tok) (txt : Str) (h : WsSeparated ts txt) :
+    serialize badPairs ts = some txt ∧ strip (tokenizePre Quirks.spec txt) = strip ts :=
+  roundtrip_ws_separated ts txt h
+
+/-- the domain is inhabited by non-trivial lists: `--x "a" url(b)` -/
+example : WsSeparated
+    [.ident 0 ['-', '-', 'x'], .ws 3 [' '], .str 4 ['a'] false, .ws 7 [' '], .url 8 ['b'] false]
+    (['-', '-', 'x'] ++ [' '] ++ (['"', 'a', '"'] ++ [' '] ++ ['u', 'r', 'l', '(', 'b', ')'])) := by
+  refine .chain _ _ (.cons _ _ _ _ _ _ (.ident _ _ _ (by decide)) ⟨by decide, by decide⟩
+    (.cons _ _ _ _ _ _ ?_ ⟨by decide, by decide⟩ (.last _ _ ?_)))
+  · exact Simple.str 4 ['a']
+  · exact Simple.url 8 ['b'] (by decide)
 
 end WR.Props.C20
